@@ -791,7 +791,7 @@ class BasisMultiElectron(BasisSet):
         elif len(op_symbol) == 2:
             op_symbol1, op_symbol2 = op_symbol
             if op_symbol1 == "I" and op_symbol2 == "I":
-                return np.eye(self.nbas)
+                return np.eye(self.nbas) * op_factor
             op_symbol1_idx = self.dof_name_map[op.dofs[0]]
             op_symbol2_idx = self.dof_name_map[op.dofs[1]]
 
@@ -857,7 +857,7 @@ class BasisMultiElectronVac(BasisSet):
         elif len(op_symbol) == 2:
             op_symbol1, op_symbol2 = op_symbol
             if op_symbol1 == "I" and op_symbol2 == "I":
-                return np.eye(self.nbas)
+                return np.eye(self.nbas) * op_factor
             op_symbol1_idx = self.dof_name_map[op.dofs[0]]
             op_symbol2_idx = self.dof_name_map[op.dofs[1]]
 
@@ -871,7 +871,7 @@ class BasisMultiElectronVac(BasisSet):
                 raise ValueError(f"op_symbol:{op_symbol} is not supported")
         else:
             if op_symbol.count("I") == len(op_symbol):
-                return np.eye(self.nbas)
+                return np.eye(self.nbas) * op_factor
             else:
                 raise ValueError(f"op_symbol:{op_symbol} is not supported")
 
